@@ -140,6 +140,9 @@ func (sc *Scenario) Build(w *World) error {
 				Template: podTemplate("app:v1"),
 				Strategy: apps.DeploymentStrategy{Type: apps.RollingUpdateDeploymentStrategyType,
 					RollingUpdate: &apps.RollingUpdateDeployment{MaxSurge: parseIS("25%"), MaxUnavailable: parseIS("25%")}},
+				// the API server's defaults (a stored Deployment always carries them)
+				ProgressDeadlineSeconds: utilpointer.Int32(600),
+				RevisionHistoryLimit:    utilpointer.Int32(10),
 			},
 		}
 		if sc.Recreate {
